@@ -635,11 +635,7 @@ func (e *Env) eval(x ast.Expr) Val {
 			ty = e.namedType(n.Type)
 		}
 		if ty == nil {
-			if st, ok := n.Type.(*ast.StarExpr); ok {
-				if el := e.namedType(st.X); el != nil {
-					ty = types.NewPointer(el)
-				}
-			}
+			ty = e.typeOfExpr(n.Type)
 		}
 		if ty == nil || v.K != VScalar || t.mode.scalarSort(ty) == "" {
 			e.fail("unsupported type assertion in a contract expression")
@@ -1030,6 +1026,22 @@ func (e *Env) call(n *ast.CallExpr) Val {
 				e.fail("samebase needs slices")
 			}
 			return scalar(bt, and(eq(a.Sub[0].S, b.Sub[0].S), eq(a.Sub[1].S, b.Sub[1].S)))
+		case "samearray":
+			// samearray(a, b): two slices live in the same backing array (at any offsets)
+			e.nargs(n, 2)
+			a, b := e.eval(n.Args[0]), e.eval(n.Args[1])
+			if a.K != VSlice || b.K != VSlice {
+				e.fail("samearray needs slices")
+			}
+			return scalar(bt, eq(a.Sub[0].S, b.Sub[0].S))
+		case "offsetof":
+			// offsetof(a): index of a[0] in a's backing array
+			e.nargs(n, 1)
+			a := e.eval(n.Args[0])
+			if a.K != VSlice {
+				e.fail("offsetof needs a slice")
+			}
+			return scalar(types.Typ[types.Int], a.Sub[1].S)
 		case "isdyn":
 			// isdyn(x, T): the interface value x is non-nil and its dynamic type is T (T or *T)
 			e.nargs(n, 2)
@@ -1044,11 +1056,7 @@ func (e *Env) call(n *ast.CallExpr) Val {
 				ty = e.namedType(n.Args[1])
 			}
 			if ty == nil {
-				if st, ok := n.Args[1].(*ast.StarExpr); ok {
-					if el := e.namedType(st.X); el != nil {
-						ty = types.NewPointer(el)
-					}
-				}
+				ty = e.typeOfExpr(n.Args[1])
 			}
 			if ty == nil || v.K != VScalar {
 				e.fail("isdyn(x, T): unsupported operand")
@@ -1341,4 +1349,36 @@ func sortStrings(a []string) {
 			a[j], a[j-1] = a[j-1], a[j]
 		}
 	}
+}
+
+// typeOfExpr resolves a type written in a contract expression: basic and named
+// types, pointers to and slices of those (e.g. *[]byte).
+func (e *Env) typeOfExpr(x ast.Expr) types.Type {
+	switch n := x.(type) {
+	case *ast.Ident:
+		// predeclared names keep their spelling (byte and uint8 are identical
+		// types with different names; type tags are keyed by the printed type)
+		if tn, ok := types.Universe.Lookup(n.Name).(*types.TypeName); ok {
+			return tn.Type()
+		}
+		if bt, ok := convNames[n.Name]; ok {
+			return bt
+		}
+		return e.namedType(n)
+	case *ast.SelectorExpr:
+		return e.namedType(n)
+	case *ast.StarExpr:
+		if el := e.typeOfExpr(n.X); el != nil {
+			return types.NewPointer(el)
+		}
+	case *ast.ArrayType:
+		if n.Len == nil {
+			if el := e.typeOfExpr(n.Elt); el != nil {
+				return types.NewSlice(el)
+			}
+		}
+	case *ast.ParenExpr:
+		return e.typeOfExpr(n.X)
+	}
+	return nil
 }
